@@ -393,4 +393,5 @@ func (c *Conn) Closed() bool {
 func (c *Conn) Close() {
 	c.nc.Close()
 	c.readerWG.Wait()
+	c.hw.release()
 }
